@@ -67,7 +67,55 @@ def fa_instances(F):
     return refs, byval
 
 
+EXPIRY_SIBS = ("sciparse::proto::dataplane_path::standard::model::StandardPath::expiration",
+               "sciparse::proto::dataplane_path::standard::view::StandardPathView::expiration")
+
+
+def expiry_sibling_rule(F, R):
+    """SIB-expiry: view and model compute a path's expiry the same way — per segment `timestamp(seg) + lifetime(min ExpTime
+    over seg's hop fields)`, minimised over segments.  Decided structurally in both siblings: the two operands of the
+    saturating_add derive from the *same* iteration element (same Iterator::next call site), the first through the info
+    field's timestamp, the second through exp_time_to_duration of a min() over that element's hop fields, and the sum feeds
+    an Ord::min accumulation.  A model that adds the globally oldest timestamp to the globally shortest lifetime agrees with
+    the view only on single-segment paths."""
+    from facts import walk, tokens, strip_sites
+    n = 0
+    for p in EXPIRY_SIBS:
+        b = F.body(p)
+        if b is None:
+            R.anchor_missing(p)
+            continue
+        R.fn(p)
+        adds = [c for c in b.calls if not c.indirect and c.decl.endswith("::saturating_add") and c.bb in b.live_blocks()]
+        ok, why = bool(adds), "no saturating_add of timestamp and lifetime"
+        for c in adds:
+            n += 1
+            oa, ob = b.origin(c.args[0]), b.origin(c.args[1])
+            ta, tb = tokens(oa), tokens(ob)
+            if not any(t.endswith("exp_time_to_duration") for t in tb) and any(t.endswith("exp_time_to_duration") for t in ta):
+                oa, ob, ta, tb = ob, oa, tb, ta
+            nexts = lambda o: {x[5] for x in walk(o) if x[0] == "call" and len(x) > 5 and x[1].endswith("Iterator>::next")}
+            has_ts = any("timestamp" in t for t in ta)
+            has_life = any(t.endswith("exp_time_to_duration") for t in tb) and any(t.endswith("Iterator::min") or t.endswith("::min") for t in tb)
+            common = nexts(oa) & nexts(ob)
+            feeds_min = any(cc.decl.endswith("Ord::min") or cc.decl.endswith("::min") for cc in b.calls if not cc.indirect and
+                            any(x[0] == "call" and len(x) > 5 and x[5] == c.bb for a in cc.args for x in walk(b.origin(a))))
+            ok = has_ts and has_life and bool(common) and feeds_min
+            why = "timestamp operand: %s; lifetime operand: %s; same segment element: %s; minimised over segments: %s" % (has_ts, has_life, bool(common), feeds_min)
+        R.ob("SIB-expiry", "%s: expiry = min over segments of (segment timestamp + lifetime of its shortest-lived hop)" % _short(p), ok, True,
+             {"rule": "SIB-expiry", "fn": p, "detail": why, "holds": ok})
+        if not ok:
+            R.violation("SIB-expiry", p, "%s does not compute the expiry per segment (%s): view and model disagree on multi-segment paths whose "
+                        "oldest segment is not the one with the shortest-lived hop field" % (_short(p), why), F.loc(p))
+    R.floor("SIB-expiry", n, 2, "timestamp + lifetime additions in StandardPath::expiration / StandardPathView::expiration")
+
+
+def _short(p):
+    return "::".join(p.split("::")[-2:])
+
+
 def run(F, R, tier, cfg):
+    expiry_sibling_rule(F, R)
     fa = T.FA(F)
     refs, byval = fa_instances(F)
     for p in refs:
